@@ -5,7 +5,7 @@
  * "the library did not abort" (every fatal run is a violation), plus a light
  * sanity check of the outcome so that the ramp is known to have done its work.
  *
- * option: mode=evwait|guardq|holders|timers|oqueue|observers|procwait
+ * option: mode=evwait|guardq|holders|timers|oqueue|observers|procwait|closing
  */
 #include <inttypes.h>
 #include <stdio.h>
@@ -14,8 +14,15 @@
 
 #include "vx_explore.h"
 
+#include "cmb_buffer.h"
+#include "cmb_condition.h"
+#include "cmb_dataset.h"
+#include "cmb_datasummary.h"
 #include "cmb_event.h"
 #include "cmb_logger.h"
+#include "cmb_priorityqueue.h"
+#include "cmb_timeseries.h"
+#include "cmb_wtdsummary.h"
 #include "cmb_objectqueue.h"
 #include "cmb_process.h"
 #include "cmb_resource.h"
@@ -445,6 +452,160 @@ static void run_procwait(void)
     vx_state((uint64_t)k * 1000 + (uint64_t)c * 3 + (uint64_t)op);
 }
 
+/*
+ * "closing": what a program does around its simulation rather than in it - heap-allocated objects
+ * (create / initialize / terminate / destroy), the end-of-run reports and the finalisation of histories,
+ * for objects that recorded nothing, one sample, or a constant, and the event queue printed while empty
+ * and while populated. Every object type x {never recorded, recording on but no change, one change,
+ * two changes} x {report, finalize + report} is enumerated; the oracle is the sanitizer and "no abort".
+ */
+static void *closing_body(struct cmb_process *me, void *ctx)
+{
+    (void)me;
+    void **a = ctx;
+    const int type = (int)(intptr_t)a[0], changes = (int)(intptr_t)a[1];
+    void *obj = a[2];
+    for (int k = 0; k < changes; k++) {
+        void *got = NULL;
+        uint64_t am = 1, h = 0;
+        switch (type) {
+        case 0: cmb_resource_acquire(obj); cmb_process_hold(1.0); cmb_resource_release(obj); break;
+        case 1: cmb_resourcepool_acquire(obj, 1); cmb_process_hold(1.0); cmb_resourcepool_release(obj, 1); break;
+        case 2: cmb_buffer_put(obj, &am); cmb_process_hold(1.0); am = 1; cmb_buffer_get(obj, &am); break;
+        case 3: cmb_objectqueue_put(obj, (void *)0x10); cmb_process_hold(1.0); cmb_objectqueue_get(obj, &got); break;
+        default: cmb_priorityqueue_put(obj, (void *)0x10, 1, &h); cmb_process_hold(1.0); cmb_priorityqueue_get(obj, &got); break;
+        }
+        cmb_process_hold(1.0);
+    }
+    return NULL;
+}
+
+static void run_closing(void)
+{
+    const int type = vx_choose_free(6, "object");      /* 5 = the bare data containers */
+    const int rec = vx_choose_free(2, "recording");
+    const int changes = vx_choose_free(3, "changes");
+    const int fin = vx_choose_free(2, "finalize");
+    const int npend = vx_choose_free(3, "pending-events");
+    FILE *fp = fopen("/dev/null", "w");
+    if (fp == NULL) {
+        return;
+    }
+    /* the event queue printed empty, with one and with nine events pending */
+    for (int k = 0; k < (npend == 0 ? 0 : npend == 1 ? 1 : 9); k++) {
+        cmb_event_schedule(dummy, NULL, NULL, 50.0 + k, k % 3);
+    }
+    cmb_event_queue_print(fp);
+    if (type == 5) {
+        struct cmb_dataset *ds = cmb_dataset_create();
+        cmb_dataset_initialize(ds);
+        struct cmb_timeseries *ts = cmb_timeseries_create();
+        cmb_timeseries_initialize(ts);
+        struct cmb_datasummary *su = cmb_datasummary_create();
+        cmb_datasummary_initialize(su);
+        struct cmb_wtdsummary *ws = cmb_wtdsummary_create();
+        cmb_wtdsummary_initialize(ws);
+        for (int k = 0; k < changes; k++) {
+            cmb_dataset_add(ds, 2.0);
+            cmb_timeseries_add(ts, 2.0, (double)k);
+            cmb_datasummary_add(su, 2.0);
+            cmb_wtdsummary_add(ws, 2.0, rec ? 1.0 : 0.0);
+        }
+        if (fin) {
+            cmb_timeseries_finalize(ts, 10.0);
+        }
+        cmb_datasummary_print(su, fp, true);
+        cmb_wtdsummary_print(ws, fp, true);
+        if (changes > 0) {
+            struct cmb_datasummary s2;
+            cmb_dataset_summarize(ds, &s2);
+            cmb_datasummary_print(&s2, fp, false);
+            cmb_dataset_print(ds, fp);
+            cmb_timeseries_print(ts, fp);
+        }
+        if (rec) {
+            cmb_dataset_reset(ds);
+            cmb_timeseries_reset(ts);
+            cmb_datasummary_reset(su);
+            cmb_wtdsummary_reset(ws);
+            cmb_dataset_add(ds, 1.0);
+            cmb_timeseries_add(ts, 1.0, 0.0);
+        }
+        cmb_dataset_terminate(ds);
+        cmb_dataset_destroy(ds);
+        cmb_timeseries_terminate(ts);
+        cmb_timeseries_destroy(ts);
+        cmb_datasummary_terminate(su);
+        cmb_datasummary_destroy(su);
+        cmb_wtdsummary_terminate(ws);
+        cmb_wtdsummary_destroy(ws);
+        fclose(fp);
+        cmb_event_queue_clear();
+        return;
+    }
+    void *obj = NULL;
+    struct cmb_timeseries *hist = NULL;
+    switch (type) {
+    case 0: { struct cmb_resource *r = cmb_resource_create(); cmb_resource_initialize(r, "R"); obj = r;
+              if (rec) cmb_resource_start_recording(r);
+              hist = cmb_resource_history(r); break; }
+    case 1: { struct cmb_resourcepool *r = cmb_resourcepool_create(); cmb_resourcepool_initialize(r, "P", 2); obj = r;
+              if (rec) cmb_resourcepool_start_recording(r);
+              hist = cmb_resourcepool_get_history(r); break; }
+    case 2: { struct cmb_buffer *r = cmb_buffer_create(); cmb_buffer_initialize(r, "B", 3); obj = r;
+              if (rec) cmb_buffer_recording_start(r);
+              hist = cmb_buffer_history(r); break; }
+    case 3: { struct cmb_objectqueue *r = cmb_objectqueue_create(); cmb_objectqueue_initialize(r, "Q", 3); obj = r;
+              if (rec) cmb_objectqueue_recording_start(r);
+              hist = cmb_objectqueue_history(r); break; }
+    default: { struct cmb_priorityqueue *r = cmb_priorityqueue_create(); cmb_priorityqueue_initialize(r, "PQ", 3); obj = r;
+               if (rec) cmb_priorityqueue_recording_start(r);
+               hist = cmb_priorityqueue_history(r); break; }
+    }
+    void *args[3] = { (void *)(intptr_t)type, (void *)(intptr_t)changes, obj };
+    struct cmb_process *pp = cmb_process_create();
+    cmb_process_initialize(pp, "closer", closing_body, args, 0);
+    cmb_process_start(pp);
+    while (cmb_event_execute_next()) {
+        vx_transition();
+        if (cmb_time() > 40.0) {
+            break;
+        }
+    }
+    if (rec) {
+        switch (type) {
+        case 0: cmb_resource_stop_recording(obj); break;
+        case 1: cmb_resourcepool_stop_recording(obj); break;
+        case 2: cmb_buffer_recording_stop(obj); break;
+        case 3: cmb_objectqueue_recording_stop(obj); break;
+        default: cmb_priorityqueue_recording_stop(obj); break;
+        }
+    }
+    if (fin) {
+        cmb_timeseries_finalize(hist, cmb_time());
+    }
+    switch (type) {
+    case 0: cmb_resource_print_report(obj, fp); break;
+    case 1: cmb_resourcepool_print_report(obj, fp); break;
+    case 2: cmb_buffer_print_report(obj, fp); break;
+    case 3: cmb_objectqueue_report_print(obj, fp); break;
+    default: cmb_priorityqueue_report_print(obj, fp); break;
+    }
+    cmb_event_queue_print(fp);
+    cmb_event_queue_clear();
+    cmb_process_terminate(pp);
+    cmb_process_destroy(pp);
+    switch (type) {
+    case 0: cmb_resource_destroy(obj); break;
+    case 1: cmb_resourcepool_destroy(obj); break;
+    case 2: cmb_buffer_destroy(obj); break;
+    case 3: cmb_objectqueue_destroy(obj); break;
+    default: cmb_priorityqueue_destroy(obj); break;
+    }
+    fclose(fp);
+    vx_outcome((uint64_t)(type * 100 + rec * 50 + changes * 10 + fin * 3 + npend));
+}
+
 static void run_one(void)
 {
     memset(procs, 0, sizeof procs);
@@ -457,6 +618,7 @@ static void run_one(void)
     else if (!strcmp(mode, "timers")) run_timers();
     else if (!strcmp(mode, "oqueue")) run_oqueue();
     else if (!strcmp(mode, "observers")) run_observers();
+    else if (!strcmp(mode, "closing")) run_closing();
     else run_procwait();
     for (int i = 0; i < NP; i++) {
         if (procs[i].core.stack != NULL) {
